@@ -1,19 +1,21 @@
 import Cfdm.Driver.Parse
 import Cfdm.Driver.C03
 import Cfdm.Model.Lazy
+import Cfdm.Model.H5Index
+import Cfdm.Model.Dtype
 /-
 C12 driver.
 
 `C12.hist be=<nc4|h5> vars=<file>:<shape>;…  ops=<op>/<op>/…`
    shape `2x3` or `0d`; variable k (address k) holds the integers k*100000 + flat offset.
    ops: `copy~i` `sub~i~[raw index]` `tomem~i~<0|1>` `arr~i` `set~i~[raw index]~v` `eq~i~j`
-        `first~i` `last~i` `second~i` `str~i` `tr~i~<0|1>` `ins~i~<0|1>` `edit~i`
+        `first~i` `last~i` `second~i` `str~i` `tr~i~<0|1>` `ins~i~<0|1>` `sq~i~<0|1>` `fl~i~<0|1>` `edit~i`
    → per op `<obs> st=<D|M|-> new=<fetches> h=<open handles>` joined by ` | `, then ` || states=…`.
 `C12.read be=<nc4|h5> vars=<addr>:<shape>:<role>;…`
    → `st=<addr>:<D|M>,… log=<fetches> h=<open handles>`
 -/
 namespace Cfdm.Driver.C12
-open Cfdm.Driver Cfdm.PySlice Cfdm.Indexing Cfdm.Arr Cfdm.Lazy
+open Cfdm.Driver Cfdm.PySlice Cfdm.Indexing Cfdm.Arr Cfdm.Lazy Cfdm.H5Index
 
 def parseShape (s : String) : Option (List Nat) :=
   if s == "0d" then some [] else (s.splitOn "x").mapM String.toNat?
@@ -38,6 +40,8 @@ def parseOp (s : String) : Option (Op Int) :=
   | ["tomem", i, p] => do some (Op.toMemory (← i.toNat?) (← parseBool p))
   | ["tr", i, p] => do some (Op.transpose (← i.toNat?) (← parseBool p))
   | ["ins", i, p] => do some (Op.insertDim (← i.toNat?) (← parseBool p))
+  | ["sq", i, p] => do some (Op.squeeze (← i.toNat?) (← parseBool p))
+  | ["fl", i, p] => do some (Op.flatten (← i.toNat?) (← parseBool p))
   | ["set", i, ix, v] => do some (Op.setitem (← i.toNat?) (← C03.parseRaws ix) (← parseInt? v))
   | ["eq", i, j] => do some (Op.equals (← i.toNat?) (← j.toNat?))
   | _ => none
@@ -76,7 +80,7 @@ def resultHandle (w : World Int) (op : Op Int) (o : Obs Int) : Option Nat :=
   | .handle h => some h
   | _ => match op with
     | .copy i | .edit i | .subspace i _ | .toMemory i _ | .array i | .setitem i _ _ | .equals i _
-    | .first i | .last i | .second i | .str i | .transpose i _ | .insertDim i _ => if i < w.heap.length then some i else none
+    | .first i | .last i | .second i | .str i | .transpose i _ | .insertDim i _ | .squeeze i _ | .flatten i _ => if i < w.heap.length then some i else none
 
 def parseHistVar (t : String) : Option (Nat × List Nat) :=
   match t.splitOn ":" with
@@ -131,7 +135,7 @@ def parseRole (s : String) : Option Role :=
   | "scalarBounds" => some .scalarBounds | "bounds" => some .bounds | "measure" => some .measure
   | "count" => some .count | "index" => some .index | "listVar" => some .listVar
   | "sample" => some .sample | "nodesFlat" => some .nodesFlat | "connT" => some .connT
-  | "conn" => some .conn
+  | "conn" => some .conn | "connS" => some .connS
   | _ => none
 
 def parseReadVar (t : String) : Option VarDesc :=
@@ -159,10 +163,108 @@ def runRead (kv : KV) : String :=
     let sts := (vs.zip w.heap).map (fun (p : VarDesc × AState Int) => s!"{p.1.loc.addr}:{showState (some p.2)}")
     s!"st={String.intercalate "," sts} log={showFetches w.log} h={w.handles}"
 
+/-! `C12.vs be=<nc4|h5|h5old> shape=<shape> ix=[raw index]`
+   a field whose data variable has that shape (value = flat offset), each axis k with a coordinate
+   variable (value = position) and its bounds variable (n_k x 2, value = flat offset), subspaced
+   lazily with the index and then realised.
+   → `d=<shape>:<values> rd=<what the variable is asked for> c<k>=<values> r<k>=<asked> b<k>=<values> …`
+   or `raised:<…>`; a component the backend refuses prints as `raised:backend`. -/
+
+def showPs (r : List (List Nat)) : String :=
+  if r.isEmpty then "-" else String.intercalate ";" (r.map showAxis)
+
+def access (be : String) (A : Arr Nat) (sels : List Sel) : Except Err (Arr Nat) :=
+  if be == "nc4" then .ok (takeAll A (positionsNat A.shape sels))
+  else if be == "h5old" then indexH5Old A sels
+  else indexH5 A sels
+
+def reads (be : String) (shape : List Nat) (sels : List Sel) : List (List Nat) :=
+  if be == "nc4" then positionsNat shape sels
+  else if be == "h5old" then positionsNat shape sels
+  else h5Reads shape sels
+
+def showAccess (r : Except Err (Arr Nat)) : String :=
+  match r with
+  | .ok B => s!"{showNatList B.shape}:{showNatList (toList B)}"
+  | .error e => showErr e
+
+def runVs (kv : KV) : String :=
+  match (do
+    let be ← kv.get? "be"
+    let _ ← parseBackend be
+    let shape ← parseShape (← kv.get? "shape")
+    let raw ← C03.parseRaws (← kv.get? "ix")
+    some (be, shape, raw)) with
+  | none => "bad-op"
+  | some (be, shape, raw) =>
+    match parse shape raw with
+    | .error e => showErr e
+    | .ok sels =>
+      match checkIndex shape sels with
+      | some e => showErr e
+      | none =>
+        let d := s!"d={showAccess (access be (iota shape) sels)} rd={showPs (reads be shape sels)}"
+        let cs := (List.range shape.length).map (fun k =>
+          let n := shape.getD k 0
+          let sel := sels.getD k (.slice none none none)
+          let bsel : Sel := if boundsReversed (normSel n sel) then .slice none none (some (-1)) else .slice none none none
+          s!"c{k}={showAccess (access be (iota [n]) [sel])} r{k}={showPs (reads be [n] [sel])} " ++
+          s!"b{k}={showAccess (access be (iota [n, 2]) [sel, bsel])}")
+        String.intercalate " " (d :: cs)
+
+/-! `C12.dtype vt=<dt> sf=<dt>:<0|1>|- ao=<dt>:<0|1>|- uns=<0|1> data=<0|1> unpack=<0|1>`
+   → `adv=<dt> del=<dt> advold=<dt>`;  `C12.promote a=<dt> b=<dt>` → `rt=<dt> safe=<0|1>`. -/
+open Cfdm.Dtype in
+def parseDT (s : String) : Option DT :=
+  match s with
+  | "i1" => some .i1 | "i2" => some .i2 | "i4" => some .i4 | "i8" => some .i8
+  | "u1" => some .u1 | "u2" => some .u2 | "u4" => some .u4 | "u8" => some .u8
+  | "f4" => some .f4 | "f8" => some .f8
+  | _ => none
+
+open Cfdm.Dtype in
+def showDT : DT → String
+  | .i1 => "i1" | .i2 => "i2" | .i4 => "i4" | .i8 => "i8"
+  | .u1 => "u1" | .u2 => "u2" | .u4 => "u4" | .u8 => "u8"
+  | .f4 => "f4" | .f8 => "f8"
+
+open Cfdm.Dtype in
+def parseAttr (s : String) : Option (Option Attr) :=
+  if s == "-" then some none else
+  match s.splitOn ":" with
+  | [d, n] => do some (some ⟨← parseDT d, ← parseBool n⟩)
+  | _ => none
+
+open Cfdm.Dtype in
+def runDtype (kv : KV) : String :=
+  match (do
+    let vt ← parseDT (← kv.get? "vt")
+    let sf ← parseAttr (← kv.get? "sf")
+    let ao ← parseAttr (← kv.get? "ao")
+    let uns ← parseBool (← kv.get? "uns")
+    let isd ← parseBool (← kv.get? "data")
+    let unp ← parseBool (← kv.get? "unpack")
+    some (Var.mk vt sf ao uns isd, unp)) with
+  | none => "bad-op"
+  | some (v, unp) =>
+    s!"adv={showDT (advertised unp v)} del={showDT (delivered unp v)} advold={showDT (advertisedOld unp v)}"
+
+open Cfdm.Dtype in
+def runPromote (kv : KV) : String :=
+  match (do
+    let a ← parseDT (← kv.get? "a")
+    let b ← parseDT (← kv.get? "b")
+    some (a, b)) with
+  | none => "bad-op"
+  | some (a, b) => s!"rt={showDT (resultType a b)} safe={if safeCast a b then 1 else 0}"
+
 def run (sub : String) (kv : KV) : String :=
   match sub with
   | "hist" => runHist kv
   | "read" => runRead kv
+  | "vs" => runVs kv
+  | "dtype" => runDtype kv
+  | "promote" => runPromote kv
   | _ => "bad-op"
 
 end Cfdm.Driver.C12
